@@ -69,6 +69,9 @@ func roundTripDiff(p url.Parser, f []string) string {
 		return "serialization " + fmt.Sprintf("%q", f[fHref]) + " does not parse: " + o.String()
 	}
 	for _, i := range allButVerrs {
+		if i == fParams {
+			continue // whether the parameter object has been created is not part of the URL
+		}
 		if o.Fields[i] != f[i] {
 			return fmt.Sprintf("re-parsing %q changes %s: %q -> %q", f[fHref], fieldNames[i], f[i], o.Fields[i])
 		}
@@ -449,6 +452,25 @@ var edgeStarts = []string{
 	"javascript:alert(1)  ?  #  ", "a:b", "a:", "a:/", "a://", "a:?", "a:#",
 }
 
+// start URLs obtained by resolving a reference against a base (states reached through the relative,
+// relative-slash, file and no-scheme states differ in which cached fields they copy)
+var edgeRefStarts = [][2]string{
+	{"http://example.com:443/a/b", "c"}, {"https://h:80/a/b?q", "?y=2"}, {"ws://h:443/x", "#frag"}, {"wss://h:21/x/y", "../c"},
+	{"http://h:21/a", "/c"}, {"ftp://h:80/", "x"}, {"sc://h:80/a", "b"}, {"http://u:p@h:8080/a/b", ""}, {"http://:pw@h/a", "?q"},
+	{"file:///C:/a/b", "../../x"}, {"file://h/a", "b"}, {"file:///C|/a", "/D|/b"}, {"sc:opaque  ?q", "#f"}, {"data:x  #f", "#"},
+	{"http://1.2.3.4:443/", "a"}, {"http://[::1]:443/", "b"}, {"sc://h", "x"}, {"sc://h/a/b", "//g:80/c"}, {"http://h/a", "//g:443"},
+}
+
+func edgeStart(i int) (*string, string) {
+	if i < len(edgeStarts) {
+		return nil, edgeStarts[i]
+	}
+	p := edgeRefStarts[i-len(edgeStarts)]
+	return &p[0], p[1]
+}
+
+func nEdgeStarts() int { return len(edgeStarts) + len(edgeRefStarts) }
+
 type edgeOp struct {
 	w int
 	v string
@@ -470,9 +492,9 @@ func famEdgeHist(c *Ctx, cfg *Cfg, fields []int, fam string, withSP bool,
 	each func(d *Driver, cs histCase, h *implHist, steps []Step, start Obs)) {
 	ops := allEdgeOps()
 	n := len(ops)
-	total := len(edgeStarts) * (n + n*n)
+	total := nEdgeStarts() * (n + n*n)
 	c.Pool.Run(total, func(d *Driver, i int) {
-		s := edgeStarts[i/(n+n*n)]
+		base, s := edgeStart(i / (n + n*n))
 		k := i % (n + n*n)
 		var hops []Op
 		if k < n {
@@ -489,9 +511,9 @@ func famEdgeHist(c *Ctx, cfg *Cfg, fields []int, fam string, withSP bool,
 				hops = append(hops, Op{K: "a", A: "k", B: "v"})
 			}
 		}
-		h, steps, start := c.cmpHist(d, cfg, nil, s, hops, fields, fam, i)
+		h, steps, start := c.cmpHist(d, cfg, base, s, hops, fields, fam, i)
 		if each != nil && h != nil {
-			each(d, histCase{cfg, nil, s, hops, fam, i}, h, steps, start)
+			each(d, histCase{cfg, base, s, hops, fam, i}, h, steps, start)
 		}
 	})
 }
@@ -510,14 +532,14 @@ func famEdgeTwo(c *Ctx, cfg *Cfg, fields []int, fam string,
 	}
 	mk := []Op{{K: "c", Slot: 0}, {K: "R", A: "#f"}, {K: "R", A: ""}, {K: "R", A: "?q"}}
 	per := len(ops) + len(clr)*len(clr)
-	total := len(edgeStarts) * len(mk) * 2 * per
+	total := nEdgeStarts() * len(mk) * 2 * per
 	c.Pool.Run(total, func(d *Driver, i int) {
 		k := i % per
 		j := i / per
 		slot := j % 2
 		j /= 2
 		first := mk[j%len(mk)]
-		s := edgeStarts[j/len(mk)]
+		base, s := edgeStart(j / len(mk))
 		hops := []Op{first}
 		if k < len(ops) {
 			hops = append(hops, Op{K: "s", Slot: slot, W: ops[k].w, A: ops[k].v})
@@ -529,9 +551,9 @@ func famEdgeTwo(c *Ctx, cfg *Cfg, fields []int, fam string,
 		if i%5 == 0 {
 			hops = append(hops, Op{K: "a", Slot: slot, A: "k", B: "v"})
 		}
-		h, steps, start := c.cmpHist(d, cfg, nil, s, hops, fields, fam, i)
+		h, steps, start := c.cmpHist(d, cfg, base, s, hops, fields, fam, i)
 		if each != nil && h != nil {
-			each(d, histCase{cfg, nil, s, hops, fam, i}, h, steps, start)
+			each(d, histCase{cfg, base, s, hops, fam, i}, h, steps, start)
 		}
 	})
 }
